@@ -162,7 +162,13 @@ def check(prog: Program, tier: str) -> Result:
     _r18_8(prog, res)
     _r18_7(prog, res)
     _r18_9(prog, res)
-    res.floors.update({"R18.1": 6, "R18.2": 2, "R18.4": 1, "R18.5": 1})
+    # R18.10: where a module comes from is a fact about the disk and sys.path NOW
+    from . import c05 as _c05
+    anchors = [f.key for f in prog.funcs.values() if f.mod.name == "tracing"]
+    _c05.adopt_memo_rule(prog, res, "R18.10", anchors,
+                         "import normalisation must hold for ANY layout of the imported packages: a memoised lookup answers for the layout of an earlier call "
+                         "(another working directory, an edited or moved module), so star-imports are expanded to names the module no longer exports")
+    res.floors.update({"R18.1": 6, "R18.2": 2, "R18.4": 1, "R18.5": 1, "R18.10": 3})
     res.analysed["importfrom_constructions"] = n
     return res
 
